@@ -342,6 +342,9 @@ func genReaderCase(r *rand.Rand, holes bool) (args, res, feats string) {
 	default:
 		nOld = r.Intn(nItems + 1)
 	}
+	if rdFetchVersion >= 0 && rdFetchVersion < 4 {
+		nOld = nItems // Fetch v0..v3 responses carry message sets of format 0/1 only
+	}
 	if wantHoles && nOld == 0 {
 		nOld = 1 + r.Intn(nItems)
 	}
@@ -437,7 +440,13 @@ func genReaderCase(r *rand.Rand, holes bool) (args, res, feats string) {
 	}
 
 	args = kvfmt.I(min) + " " + oracleString(g.oracle) + " " + kvfmt.Bytes(set)
-	res = "P " + runP(set) + " M " + runM(set, min) + " E " + drString(expect)
+	p := ""
+	if rdFetchVersion >= 0 {
+		p = runPFetch(set, min, int16(rdFetchVersion), r)
+	} else {
+		p = runP(set)
+	}
+	res = "P " + p + " M " + runM(set, min) + " E " + drString(expect)
 	return args, res, kvfmt.Set(g.feat)
 }
 
